@@ -32,4 +32,27 @@ mutual
     | n :: ns => specNode t b anc n ++ specList t b anc ns
 end
 
+mutual
+  /-- `once="true"` as a tree rewrite of its own: the FIRST element in document order at which the
+      matcher fires (in the state reached along its ancestors) is replaced by the body instantiated with
+      START, its content as it stands (the template is retired before the content is matched), END;
+      every other event — before, inside and after it — passes.  The flag says whether it fired. -/
+  def onceNode {σ} (t : MT σ) (b : σ) (anc : List Open) : Node → List Event × Bool
+    | .leaf e => ([e], false)
+    | .elem tg at_ kids =>
+      if (t.step (openSt t.step b anc) (.start tg at_) false).2 then
+        (instantiate t.body (.start tg at_ :: (flattenList kids ++ [.end_ tg])), true)
+      else
+        let r := onceList t b ((tg, at_) :: anc) kids
+        (.start tg at_ :: (r.1 ++ [.end_ tg]), r.2)
+  def onceList {σ} (t : MT σ) (b : σ) (anc : List Open) : List Node → List Event × Bool
+    | [] => ([], false)
+    | n :: ns =>
+      let r := onceNode t b anc n
+      if r.2 then (r.1 ++ flattenList ns, true)
+      else
+        let q := onceList t b anc ns
+        (r.1 ++ q.1, q.2)
+end
+
 end Genshi.Match
